@@ -94,7 +94,7 @@ func ruleSibling(p *Program, r *Result) {
 			if call, ok := iff.Cond.(*ssa.Call); ok {
 				if f := call.Common().StaticCallee(); f != nil && f.Name() == "Has" && hasIsMaskTest(f) && len(call.Common().Args) == 2 {
 					if c, okc := constInt(call.Common().Args[1]); okc {
-						flagAddr, flagConst = call.Common().Args[0], c
+						flagAddr, flagConst = flagsOperand(call.Common().Args[0]), c
 					}
 				}
 			} else if ne, ok := iff.Cond.(*ssa.BinOp); ok && ne.Op == token.NEQ {
